@@ -1955,12 +1955,20 @@ def symbolic_mode(query: Optional[SymbolicExpression] = None, mode: EQLMode = EQ
     :param query: Optional symbolic expression to also enter/exit as a context.
     """
     prev_mode = _symbolic_mode.get()
+    hidden_contexts = None
     try:
         if query is not None:
             query.__enter__(in_rule_mode=True)
+        if mode is None:
+            # An evaluation is running: the expression contexts that are open around the call of evaluate() are not the
+            # context of what is constructed while it runs (a user predicate may build and evaluate a query of its own).
+            hidden_contexts = SymbolicExpression._symbolic_expression_stack_
+            SymbolicExpression._symbolic_expression_stack_ = []
         _set_symbolic_mode(mode)
         yield SymbolicExpression._current_parent_()
     finally:
+        if hidden_contexts is not None:
+            SymbolicExpression._symbolic_expression_stack_ = hidden_contexts
         if query is not None:
             query.__exit__()
         _set_symbolic_mode(prev_mode)
